@@ -56,6 +56,15 @@ class DualSolver:
         self.main.add(f)
         if not has_quantifier(f):
             self.qf.add(f)
+        elif z3.is_app(f) and f.decl().kind() == z3.Z3_OP_AND:
+            # the quantifier-free conjuncts of a mixed conjunction still prune branches
+            todo = list(f.children())
+            while todo:
+                x = todo.pop()
+                if not has_quantifier(x):
+                    self.qf.add(x)
+                elif z3.is_app(x) and x.decl().kind() == z3.Z3_OP_AND:
+                    todo.extend(x.children())
 
     def push(self):
         self.main.push()
@@ -183,6 +192,21 @@ class FnCtx:
             if assume_after:
                 st.assume(goal)
             return False
+        from .solve import has_quantifier
+        if not has_quantifier(goal):
+            # first with the quantifier-free assumptions only: most goals need nothing else, and
+            # the quantified context can make the solver give up on an easy goal
+            q = self.solver.qf
+            q.push()
+            q.add(z3.Not(goal))
+            rq = q.check()
+            q.pop()
+            if rq == z3.unsat:
+                self.results.append(Result(name, kind, self.fnkey, 'discharged', time.time() - t0,
+                                           'z3-%s(incremental, quantifier-free context)' % z3.get_version_string(), pos, text))
+                if assume_after:
+                    st.assume(goal)
+                return True
         self.solver.push()
         self.solver.add(z3.Not(goal))
         r = self.solver.check()
@@ -341,9 +365,18 @@ class FnCtx:
         ev = self.evaluator(st, fr)
         for c in self.contract.requires:
             try:
-                st.assume(ev.bool(c.expr))
+                f = ev.bool(c.expr)
+                st.assume(f)
+                self.bind_constant_params(st, f)
             except SpecError as ex:
                 self.stale('%s.requires[%s]' % (self.short, c.label or c.line), str(ex))
+        for (icon, ienv) in self.implemented(st):
+            iev = Ev(self, st, ienv, icon.pkg, None, icon.imports)
+            for c in icon.requires:
+                try:
+                    st.assume(iev.bool(c.expr))
+                except SpecError as ex:
+                    self.stale('%s.implements[%s].requires[%s]' % (self.short, icon.key.split('::')[1], c.label or c.line), str(ex))
         for c in self.prog.cs.pkg_invs.get(self.contract.pkg, []):
             try:
                 st.assume(ev.bool(c.expr))
@@ -370,6 +403,46 @@ class FnCtx:
                 self.stale('%s.callsite[%s].requires[%s]' % (self.short, pat, c.label), 'no call matching the pattern was reached')
         if self.returns == 0 and not any(r.kind == 'subset' for r in self.results):
             self.notes.append('no path reaches a return')
+
+    def panic_allowed(self, st, fr):
+        """the contract's panic condition (entry state); evaluated once, the facts its evaluation
+        records are assumed in every state that uses it"""
+        c = getattr(self, '_panic_allowed', None)
+        if c is None:
+            sink = State.__new__(State)
+            sink.__dict__.update(self.entry_state.__dict__)
+            facts = []
+
+            class _Sink:
+                def assume(self2, f):
+                    facts.append(f)
+            ev = self.evaluator(self.entry_state.with_sink(_Sink()), self.top)
+            ev.resolver = None
+            allowed = z3.Or([ev.bool(pc.expr) for pc in self.contract.panics_if])
+            c = self._panic_allowed = (allowed, facts)
+        for f in c[1]:
+            st.assume(f)
+        return c[0]
+
+    def bind_constant_params(self, st, f):
+        """a precondition conjunct `param == constant` (the selector of a behaviour, e.g. the opcode):
+        the parameter's register becomes that constant, so branches on it fold without the solver"""
+        todo = [f]
+        while todo:
+            x = todo.pop()
+            if z3.is_app(x) and x.decl().kind() == z3.Z3_OP_AND:
+                todo.extend(x.children())
+                continue
+            if z3.is_eq(x):
+                a, b = x.arg(0), x.arg(1)
+                if z3.is_int_value(a):
+                    a, b = b, a
+                if z3.is_int_value(b) and z3.is_const(a) and a.decl().kind() == z3.Z3_OP_UNINTERPRETED:
+                    for p in (self.fn.get('params') or []):
+                        v = st.regs.get(p['name'])
+                        if v is not None and v.lv is not None and list(v.lv.keys()) == [()] and v.lv[()].eq(a):
+                            st.regs[p['name']] = scalar(v.t, b)
+                            self.base_env[p['name']] = st.regs[p['name']]
 
     def patch_freevars(self, st):
         """in contracts of closures, a captured variable's name denotes its current value"""
@@ -607,7 +680,44 @@ class FnCtx:
                 self.stale(name, str(ex))
                 continue
             self.prove(st, g, name, 'ensures', ins.get('pos'), c.text, assume_after=False)
+        for (icon, ienv) in self.implemented(self.entry_state):
+            ienv = dict(ienv)
+            for k2, v2 in env.items():
+                if k2.startswith('result') or k2 == 'err':
+                    ienv[k2] = v2
+            iev = Ev(self, st, ienv, icon.pkg, self.entry_state.with_sink(st), icon.imports)
+            for c in icon.ensures:
+                name = '%s.implements[%s].ensures[%s]' % (self.short, icon.key.split('::')[1], c.label)
+                try:
+                    g = iev.bool(c.expr)
+                except SpecError as ex:
+                    self.stale(name, str(ex))
+                    continue
+                self.prove(st, g, name, 'ensures', ins.get('pos'), c.text, assume_after=False)
         self.check_frame(st, fr, ev, ins)
+
+    def implemented(self, st):
+        """[(interface-method contract, env with recv = the boxed receiver and the method's
+        parameters by position)] for the `implements` clauses of the contract"""
+        out = []
+        keys = (self.contract.opts.get('implements') or '').split()
+        if not keys:
+            return out
+        params = self.fn.get('params') or []
+        if not params:
+            return out
+        for k in keys:
+            icon = self.prog.cs.funcs.get(k)
+            if icon is None:
+                self.stale('%s.implements[%s]' % (self.short, k), 'no such interface-method contract')
+                continue
+            recv = self.input_vals[params[0]['name']]
+            bx = V.box(self.types, recv, st)
+            env = {'recv': Val('any', bx.lv)}
+            for i, p in enumerate(params[1:]):
+                env['arg%d' % i] = self.input_vals[p['name']]
+            out.append((icon, env))
+        return out
 
     def check_frame(self, st, fr, ev, ins):
         """everything that existed at entry and is not covered by `modifies` is unchanged"""
